@@ -9,6 +9,7 @@ import (
 	"math/big"
 	"os"
 	"strconv"
+	"strings"
 	"time"
 
 	"github.com/aergoio/aergo/v2/types"
@@ -114,7 +115,21 @@ func (c *ctxT) checkCase(word []int) (string, string) {
 			}
 			for _, id := range changed {
 				if !allowed[id] {
-					return desc, fmt.Sprintf("tx %d (%s) failed at run time (ERROR receipt) but account %s changed", i, o.Gen, id[:12])
+					m := fmt.Sprintf("tx %d (%s) failed at run time (ERROR receipt) but account %s changed", i, o.Gen, id[:12])
+					// F22: the failed call wrote contract storage and an earlier successful tx of the same
+					// block had already staged that contract's storage (the buffer is shared through the
+					// block's storage cache and nothing rolls it back on a top-level failure)
+					if rc := o.Tx.GetBody().GetRecipient(); id == nk.AccountIDHex(rc) {
+						for j := 0; j < i; j++ {
+							pj := full.Out[j]
+							if pj.Status != "" && pj.Status != "ERROR" && bytes.Equal(pj.Tx.GetBody().GetRecipient(), rc) &&
+								before.Accounts[id] != nil && after.Accounts[id] != nil && before.Accounts[id].Balance == after.Accounts[id].Balance &&
+								before.Accounts[id].Nonce == after.Accounts[id].Nonce && before.Accounts[id].Code == after.Accounts[id].Code {
+								return desc, "F22|" + m + " (only its storage: writes of the failed call were kept)"
+							}
+						}
+					}
+					return desc, m
 				}
 			}
 			// payer pays exactly the recorded fee, nothing else of it changes
@@ -262,7 +277,11 @@ func run(ctx *xplor.Ctx) {
 		desc, msg := c.checkCase(r.Word)
 		ctx.Eval(1)
 		if msg != "" {
-			ctx.Violation("", fmt.Sprintf("net{%v} pre=%d block %s: %s", nets[r.Net], r.Pre, desc, msg), r)
+			sig := ""
+			if strings.HasPrefix(msg, "F22|") {
+				sig, msg = "F22", msg[4:]
+			}
+			ctx.Violation(sig, fmt.Sprintf("net{%v} pre=%d block %s: %s", nets[r.Net], r.Pre, desc, msg), r)
 			if err := p.Reset(); err != nil {
 				panic(err)
 			}
